@@ -91,6 +91,7 @@ macro_rules! h {
         #[kani::proof]
         #[kani::unwind($unw)]
         fn $name() {
+            crate::ghost::arm();
             $body
         }
     };
